@@ -353,3 +353,22 @@ def run(ck, facts):
     rc = tool.fn("config::Config::read_cli_settings")
     ck.expect(any((C.callee(x) or "").endswith("toml_value_from_str") for x in C.calls_in(C.fn_body(rc))), "R5", "read_cli_settings/uses-value-parser", "", "CLI values are not parsed with toml_value_from_str", C.loc(rc))
     ck.expect(any((C.callee(x) or "").endswith("toml_value_from_str") for s_ in gs for x in C.calls_in(s_)), "R5", "gen/uses-value-parser", "", "#[diplomat::config] values are not parsed with toml_value_from_str", C.loc(gen))
+
+    # ---------------- R6 the scan for #[diplomat::config] sees every attribute of every struct / impl / mod item
+    ck.rule("R6", "find_top_level_attr collects ALL #[diplomat::config] attributes (stacked ones too) of struct, impl and mod items: no short-circuiting adaptor, break or early return in the scan")
+    fta = tool.fn("config::find_top_level_attr")
+    fb = C.fn_body(fta)
+    SHORT = {"find", "find_map", "next", "first", "last", "nth", "take", "position", "any", "all", "take_while", "skip", "skip_while", "step_by", "rfind", "min", "max", "pop", "get"}
+    short = sorted({n["m"] for n in C.walk(fb) if n.get("k") == "mcall" and n.get("m") in SHORT and "Iterator" in (n.get("p") or "") + (n.get("ip") or "") or
+                    (n.get("k") == "mcall" and n.get("m") in ("first", "last", "get", "pop") and ("slice" in (n.get("p") or "") or "Vec" in (n.get("p") or "")))})
+    brk = [n.get("k") for n in C.walk(fb) if n.get("k") in ("break", "ret")]
+    ck.expect(not short and not brk, "R6", "find_top_level_attr/exhaustive-scan", "no short-circuit",
+              "the #[diplomat::config] scan uses %s %s: only the first matching attribute of an item (or the first item) is applied, later stacked attributes silently lose to lower-precedence sources" % (short, brk), C.loc(fta))
+    kinds = set()
+    for n in C.walk(fb):
+        if n.get("k") == "match":
+            for arm in n["arms"]:
+                v = (arm["pat"].get("v") or "")
+                if v and not C.diverges(arm.get("b")) and not ((C.strip(arm["b"]).get("ctor") or C.strip(arm["b"]).get("p") or "").endswith("Option::None")):
+                    kinds.add(v.split("::")[-1])
+    ck.expect({"Struct", "Impl", "Mod"} <= kinds, "R6", "find_top_level_attr/item-kinds", str(sorted(kinds)), "config attributes are no longer read from struct, impl and mod items (got %s)" % sorted(kinds), C.loc(fta))
